@@ -198,7 +198,7 @@ def run(ctx):
             return [p for p in pushes if p[2] and all(all(ctx._sat(d, r) for r in rx) for d in p[2])]
         ctx.ob("C10.G.from-word-on-unit", f.key, "from_word on a unit struct", len(has(r"discr\(self\.base\.data\)=Struct", r"is_some\(self\.from_word\)=True", r"discr\(.*\.style\)=Unit$")) == 1, "guarded error")
         ctx.ob("C10.G.from-word-on-newtype", f.key, "from_word on a newtype struct", len(has(r"discr\(self\.base\.data\)=Struct", r"is_some\(self\.from_word\)=True", r"is_newtype\(.*\)=True")) == 1, "guarded error")
-        ctx.ob("C10.G.word-with-from-word", f.key, "word + from_word", len(has(r"discr\(self\.base\.data\)=Enum", r"is_some\(self\.from_word\)=True", r"is_empty\(.*\)=False")) == 1, "guarded error")
+        ctx.ob("C10.G.word-with-from-word", f.key, "word + from_word", len(has(r"discr\(self\.base\.data\)=Enum", r"is_some\(self\.from_word\)=True", ("ne", r"^len\(.*\)$", 0))) == 1, "guarded error")
         ctx.ob("C10.G.single-word", f.key, "more than one word variant", len(has(r"discr\(self\.base\.data\)=Enum", r"Gt\(len\(.*\), 1_usize\)=True")) == 1, "guarded error")
         for blk, e, pc in pushes:
             ctx.ob("C10.G.error-spanned", f.key, "body rule", e.startswith("darling_core::error::Error::with_span("), e[:120])
@@ -239,7 +239,7 @@ def run(ctx):
     f = ctx.fn(O + "from_attributes::FromAttributesOptions::new")
     if f:
         errs = errors_of(ctx, f)
-        ok = [e for e in errs if e[1] == "custom" and all(ctx._sat(d, r"is_newtype\(.*\)=False") and ctx._sat(d, r"is_empty\(.*attr_names.*\)=True") for d in ctx.pc_strs(f, e[0]))]
+        ok = [e for e in errs if e[1] == "custom" and all(ctx._sat(d, r"is_newtype\(.*\)=False") and ctx._sat(d, r"^len\(.*attr_names.*\)=0$") for d in ctx.pc_strs(f, e[0]))]
         ctx.ob("C10.G.from-attributes-needs-names", f.key, "FromAttributes without attributes(..)", len(ok) == 1, "guarded error")
     f = ctx.fn(O + "shape::DataShape::set_word")
     if f:
